@@ -316,7 +316,8 @@ def oracle(op, out):
             if int(k[1]) != 3005:
                 stamp = None
                 break
-            asked = any(ev[2] == "x" or ev[2].startswith("-") for ev in at(t, "refresh") + at(t, "srefresh"))
+            asked = any(ev[2] == "x" or ev[2].startswith("-") for ev in at(t, "refresh") + at(t, "srefresh")) or \
+                any(ev[3] == "x" for ev in at(t, "subrefresh"))     # SubRefreshReply.Expired → DisconnectExpired
             if not asked:
                 if stamp is None:
                     if unlimited is not None:
